@@ -14,9 +14,12 @@ import (
 )
 
 var props = map[string]func(*Ctx){
+	"C01": propC01,
 	"C02": propC02,
 	"C03": propC03,
 	"C05": propC05,
+	"C10": propC10,
+	"C11": propC11,
 	"C12": propC12,
 }
 
